@@ -9,7 +9,11 @@ use super::*;
 /// placement/tombstone choices, then touches a symbolic key so that the list
 /// order differs from the bucket order. Returns the expectation describing
 /// the resulting order.
+/// `tfix >= 0`: the touched key is concrete (one query per key).
 fn build_shaped(n: usize, cap: usize, tab: [u8; 8], limit_slack: usize, nd: bool) -> (C, St, Exp) {
+    build_shaped_t(n, cap, tab, limit_slack, nd, -1)
+}
+fn build_shaped_t(n: usize, cap: usize, tab: [u8; 8], limit_slack: usize, nd: bool, tfix: i8) -> (C, St, Exp) {
     if nd {
         tm::nondet(true, true);
     }
@@ -29,7 +33,7 @@ fn build_shaped(n: usize, cap: usize, tab: [u8; 8], limit_slack: usize, nd: bool
     let mut c = build(n, &st.heaps, st.max, tab, cap);
     let mut exp = Exp::unchanged(&st);
     if n > 0 {
-        let t = sym_key(n as u8);
+        let t = if tfix >= 0 { tfix as u8 } else { sym_key(n as u8) };
         c.touch(&t);
         exp.alive[t as usize] = false;
         exp.tail = Some(Ent { k: t, kid: 8 + t, vid: t, heap: st.heaps[t as usize] });
@@ -63,7 +67,10 @@ fn use_after(c: &mut C, n: usize) {
 
 /// which: 0 reserve, 1 try_reserve, 2 shrink_to, 3 shrink_to_fit
 pub fn h_capacity(n: usize, cap: usize, tab: [u8; 8], which: u8, nd: bool) {
-    let (mut c, st, exp) = build_shaped(n, cap, tab, 0, nd);
+    h_capacity_t(n, cap, tab, which, nd, -1)
+}
+pub fn h_capacity_t(n: usize, cap: usize, tab: [u8; 8], which: u8, nd: bool, tfix: i8) {
+    let (mut c, st, exp) = build_shaped_t(n, cap, tab, 0, nd, tfix);
     let cap0 = c.capacity();
     let len = c.len();
     let tables0 = tm::tables_allocated();
@@ -131,14 +138,91 @@ pub fn h_capacity(n: usize, cap: usize, tab: [u8; 8], which: u8, nd: bool) {
     vend!();
 }
 
+/// shrink_to / shrink_to_fit on a table that holds tombstones: `capacity()`
+/// (= items + growth_left) is then smaller than what the bucket count allows,
+/// and a rebuild "down" to max(len, min_capacity) can round up above it.
+/// The table model admits a tombstone on every erase (solver's choice); the real
+/// hashbrown only produces them in tables of >= 16 buckets, so the native
+/// replay additionally searches for such a state at that scale (same
+/// operation, same assertion) when the small scenario does not show it.
+pub fn h_shrink_tomb(n: usize, cap: usize, tab: [u8; 8], fit: bool) {
+    tm::nondet(false, true);
+    let (mut c, st, _exp) = build_shaped(n, cap, tab, 0, false);
+    let r: usize = sym::any();
+    sym::assume(r >= 1 && r <= 2 && r <= n);
+    let mut i = 0;
+    while i < 2 {
+        if i < r {
+            drop(c.remove_lru());
+        }
+        i += 1;
+    }
+    let cap0 = c.capacity();
+    let len = c.len();
+    let arg: usize = if fit { 0 } else { sym::any() };
+    vcover!(cap0 < cap && cap0 > len, "shrink with tombstones: capacity() below the table's full capacity");
+    if fit {
+        c.shrink_to_fit();
+    } else {
+        c.shrink_to(arg);
+    }
+    let floor = if len > arg { len } else { arg };
+    vassert!([C13], c.capacity() <= cap0, "shrink_to / shrink_to_fit raised the capacity (table with tombstones)");
+    vassert!([C13], cap0 < floor || c.capacity() >= floor, "shrink_to / shrink_to_fit left capacity below max(len, min_capacity)");
+    vassert!([C13, C02], c.len() == len, "shrink changed len()");
+    inv(&c, n + 1);
+    #[cfg(not(kani))]
+    tomb_witness(fit, arg);
+    drop(c);
+    vend!();
+}
+
+/// Native only: look for a real-hashbrown state whose capacity() is reduced by
+/// tombstones and apply the same operation and the same assertion to it.
+#[cfg(not(kani))]
+fn tomb_witness(fit: bool, arg: usize) {
+    for &n in &[14usize, 28, 56] {
+        for seed in 0..400u64 {
+            let mut c: LruCache<u64, u64> = LruCache::with_capacity(usize::MAX, n);
+            let full = c.capacity();
+            for i in 0..full as u64 {
+                c.insert(i.wrapping_mul(seed * 2 + 1), i).unwrap();
+            }
+            let keep = 1 + (seed as usize % 6);
+            let mut i = 0u64;
+            while c.len() > keep {
+                c.remove(&i.wrapping_mul(seed * 2 + 1));
+                i += 1;
+            }
+            let cap0 = c.capacity();
+            let len = c.len();
+            if fit {
+                c.shrink_to_fit();
+            } else {
+                c.shrink_to(arg);
+            }
+            let floor = if len > arg { len } else { arg };
+            if c.capacity() > cap0 {
+                eprintln!("witness: table built with_capacity({}), seed {}, len {}: capacity {} -> {}", n, seed, len, cap0, c.capacity());
+            }
+            vassert!([C13], c.capacity() <= cap0, "shrink_to / shrink_to_fit raised the capacity (table with tombstones)");
+            vassert!([C13], cap0 < floor || c.capacity() >= floor, "shrink_to / shrink_to_fit left capacity below max(len, min_capacity)");
+        }
+    }
+}
+
 /// An insertion that has to grow the table (n entries fill a table of capacity `cap`).
 pub fn h_grow_insert(n: usize, cap: usize, tab: [u8; 8], nd: bool) {
-    let (mut c, st, exp0) = build_shaped(n, cap, tab, ES0 + (1 << 20), nd);
+    h_grow_insert_t(n, cap, tab, nd, -1)
+}
+pub fn h_grow_insert_t(n: usize, cap: usize, tab: [u8; 8], nd: bool, tfix: i8) {
+    let (mut c, st, exp0) = build_shaped_t(n, cap, tab, ES0 + (1 << 20), nd, tfix);
     let cap0 = c.capacity();
     let len = c.len();
     let tables0 = tm::tables_allocated();
-    let h: usize = sym::any();
-    sym::assume(h < (1 << 20));
+    // concrete size: with a symbolic one the eviction loop in front of the insertion
+    // does not fold and the nested reallocation loops explode (measured: > 20 min)
+    let h: usize = 11;
     let r = c.insert(Key::new(n as u8, NEW_KID), Val { heap: h, id: NEW_VID });
     let hashes = unsafe { HASHES };
     vassert!([C04, C13], matches!(r, Ok(None)), "a fresh insertion that grows the table did not succeed");
@@ -345,20 +429,30 @@ pub fn h_clone(n: usize, cap: usize, tab: [u8; 8], op: u8, side: u8, nd: bool) {
 
 // `nd` = model nondeterminism (any bucket placement, tombstones) - costly, thorough tier.
 harnesses! {
-    reserve_n3_c3 [6] => h_capacity(3, 3, tab_of(6), 0, false); //@ q=C13,C07,C04,C05,C06,C20 t=C02 to=1200
+    reserve_n3_c3_t0 [6] => h_capacity_t(3, 3, tab_of(6), 0, false, 0); //@ q=C13,C07,C04,C05,C06,C20 t=C02 to=900
+    reserve_n3_c3_t1 [6] => h_capacity_t(3, 3, tab_of(6), 0, false, 1); //@ q=C13,C07,C05 t=C04,C06,C20,C02 to=900
+    reserve_n3_c3_sym [6] => h_capacity(3, 3, tab_of(6), 0, false); //@ t=C13,C07 to=1200
     reserve_n0_c0 [4] => h_capacity(0, 0, tab_of(6), 0, false); //@ q=C13 t=C07 to=600
-    reserve_n2_c3_collide [5] => h_capacity(2, 3, tab_of(0), 0, false); //@ q=C13 t=C07,C04 to=900
+    reserve_n2_c3_collide_t0 [5] => h_capacity_t(2, 3, tab_of(0), 0, false, 0); //@ q=C13,C04 t=C07 to=900
     reserve_n3_c3_nd [6] => h_capacity(3, 3, tab_of(6), 0, true); //@ t=C13,C07 to=2400
-    try_reserve_n3_c3 [6] => h_capacity(3, 3, tab_of(6), 1, false); //@ q=C13,C07 t=C04,C05,C06,C20 to=1200
+    try_reserve_n3_c3_t0 [6] => h_capacity_t(3, 3, tab_of(6), 1, false, 0); //@ q=C13,C07 t=C04,C05,C06,C20 to=900
+    try_reserve_n3_c3_t2 [6] => h_capacity_t(3, 3, tab_of(6), 1, false, 2); //@ q=C13,C07 t=C04,C05,C06,C20 to=900
+    try_reserve_n3_c3_sym [6] => h_capacity(3, 3, tab_of(6), 1, false); //@ t=C13 to=1200
     try_reserve_n0_c0 [4] => h_capacity(0, 0, tab_of(6), 1, false); //@ q=C13 to=600
-    shrink_to_n2_c7 [5] => h_capacity(2, 7, tab_of(6), 2, false); //@ q=C13,C07 t=C04,C05,C06,C20 to=1200
+    shrink_to_n2_c7_t0 [5] => h_capacity_t(2, 7, tab_of(6), 2, false, 0); //@ q=C13,C07 t=C04,C05,C06,C20 to=900
+    shrink_to_n2_c7_t1 [5] => h_capacity_t(2, 7, tab_of(6), 2, false, 1); //@ q=C13 t=C07,C04,C05,C06,C20 to=900
+    shrink_to_n2_c7_sym [5] => h_capacity(2, 7, tab_of(6), 2, false); //@ t=C13 to=1200
     shrink_to_n3_c7 [6] => h_capacity(3, 7, tab_of(6), 2, false); //@ t=C13,C07 to=1200
     shrink_to_fit_n2_c7 [5] => h_capacity(2, 7, tab_of(6), 3, false); //@ q=C13,C07,C20 t=C04,C05,C06 to=1200
     shrink_to_fit_n0_c3 [4] => h_capacity(0, 3, tab_of(6), 3, false); //@ q=C13 t=C07 to=600
+    shrink_to_fit_tomb_n2_c3 [5] => h_shrink_tomb(2, 3, tab_of(6), true); //@ q=C13 to=900
+    shrink_to_tomb_n3_c7 [6] => h_shrink_tomb(3, 7, tab_of(6), false); //@ t=C13 to=1800
     shrink_to_fit_n2_c7_nd [5] => h_capacity(2, 7, tab_of(6), 3, true); //@ t=C13,C07 to=2400
-    grow_insert_n3_c3 [6] => h_grow_insert(3, 3, tab_of(6), false); //@ q=C13,C07,C04,C05,C06,C20,C01,C02 to=1200
+    grow_insert_n3_c3_t0 [6] => h_grow_insert_t(3, 3, tab_of(6), false, 0); //@ q=C13,C07,C04,C05,C06,C20,C01,C02 to=1200
+    grow_insert_n3_c3_t1 [6] => h_grow_insert_t(3, 3, tab_of(6), false, 1); //@ q=C13,C07,C05,C06 t=C04,C20,C01,C02 to=1200
+    grow_insert_n3_c3_t2 [6] => h_grow_insert_t(3, 3, tab_of(6), false, 2); //@ q=C13,C07 t=C04,C05,C06,C20,C01,C02 to=1200
     grow_insert_n0_c0 [4] => h_grow_insert(0, 0, tab_of(6), false); //@ q=C13,C07,C20 to=600
-    grow_insert_n3_c3_collide [6] => h_grow_insert(3, 3, tab_of(0), false); //@ q=C04 t=C13,C07 to=1200
+    grow_insert_n3_c3_collide_t1 [6] => h_grow_insert_t(3, 3, tab_of(0), false, 1); //@ q=C04 t=C13,C07 to=1200
     grow_insert_n3_c3_nd [6] => h_grow_insert(3, 3, tab_of(6), true); //@ t=C13,C07 to=2400
     with_capacity_n3 [5] => h_with_capacity(3, tab_of(6), false); //@ q=C13 to=900
     with_capacity_n4 [6] => h_with_capacity(4, tab_of(6), false); //@ t=C13 to=1200
